@@ -1,6 +1,7 @@
 from . import COMMON_TB
 
 CONFIG = dict(
+    also_release=True,
     harness="c10",
     suites=[
         # sequential sink trees, embedded Aggregate, mutex-LTS schedules executed label by label,
